@@ -99,6 +99,29 @@ FunClauses(e) ==
                                  /\ ElementalRepresents(e.el, e.F, NoField, NoField, 1, 1, e.B, env)]
        @@ (IF Len(e.alts) > 0 THEN [ParamsEnterIdentically |-> \A a \in DOMAIN e.alts : e.alts[a] = e.s] ELSE <<>>)
 
+\* a Functional whose integrand returns a tensor per quadrature point: the result has the tensor's shape, every entry is
+\* the scalar functional of its component (value, through asm, and per cell), and equals v^T A u of the component's form
+RECURSIVE ProdSeq(_)
+ProdSeq(sq) == IF sq = <<>> THEN 1 ELSE Head(sq) * ProdSeq(Tail(sq))
+TFunClauses(e) ==
+  IF e.err # "" THEN [NoUnexpectedError |-> FALSE]
+  ELSE IF ~(BasisWF(e.B) /\ RawEnvWF(e.env, e.B) /\ Len(e.u) = e.B.N /\ Len(e.v) = e.B.N) THEN [WellFormed |-> FALSE]
+  ELSE LET env == ResolveEnv(e.env, e.B) IN
+       IF ~(\A c \in DOMAIN e.comps : TermWF(e.comps[c].F, e.B.nc, e.B.nc, env) /\ (e.comps[c].hasA = 1 => MatWF(e.comps[c].A)))
+       THEN [WellFormed |-> FALSE]
+  ELSE LET U == Interp(e.B, e.u)  V == Interp(e.B, e.v)  sp == e.B.sphi IN
+       [NoUnexpectedError |-> TRUE, WellFormed |-> TRUE,
+        ShapeOK |-> e.gshape = e.shape /\ e.gashape = e.shape /\ e.gelshape = e.shape \o <<e.B.nel>>,
+        EntriesIntegral |-> e.exact = 1 /\ \A c \in DOMAIN e.comps : e.comps[c].S = NormT(e.comps[c].F, sp, sp, env).s * e.B.sdx,
+        FunctionalRepresents |->
+           /\ Len(e.comps) = ProdSeq(e.shape)
+           /\ \A c \in DOMAIN e.comps :
+                 /\ FunctionalRepresents(e.comps[c].s, e.comps[c].F, U, V, sp, sp, e.B, env)
+                 /\ e.comps[c].sa = e.comps[c].s
+                 /\ ElementalRepresents(e.comps[c].el, e.comps[c].F, U, V, sp, sp, e.B, env),
+        Consistent |-> \A c \in DOMAIN e.comps : e.comps[c].hasA = 1 =>
+                          e.comps[c].A.shape = <<e.B.N, e.B.N>> /\ ConsistentBil(e.comps[c].A, e.u, e.v, e.comps[c].s)]
+
 InterpClauses(e) ==
   IF e.err # "" THEN [NoUnexpectedError |-> FALSE]
   ELSE IF ~(BasisWF(e.B) /\ Len(e.w) = e.B.N) THEN [WellFormed |-> FALSE]
@@ -163,7 +186,8 @@ VecIsSum(b, bs) == /\ \A a \in DOMAIN bs : Len(bs[a]) = Len(b)
 ListClauses(e) ==
   IF e.err # "" THEN [NoUnexpectedError |-> FALSE]
   ELSE IF ~(/\ MatWF(e.A) /\ \A a \in DOMAIN e.Aparts : MatWF(e.Aparts[a]) /\ MatWF(e.wA)
-            /\ Len(e.Aparts) >= 1 /\ Len(e.bparts) >= 1 /\ Len(e.sparts) >= 1 /\ Len(e.qparts) >= 1)
+            /\ Len(e.Aparts) >= 1 /\ Len(e.bparts) >= 1 /\ Len(e.sparts) >= 1 /\ Len(e.qparts) >= 1
+            /\ e.hasp \in {0, 1, 2})
        THEN [WellFormed |-> FALSE]
   ELSE [NoUnexpectedError |-> TRUE, WellFormed |-> TRUE, EntriesIntegral |-> e.exact = 1,
         ListAssemblySums |->
@@ -173,8 +197,10 @@ ListClauses(e) ==
            /\ (e.hasp = 1 => e.p = SumN(Len(e.pparts), LAMBDA a : e.pparts[a]))
            /\ (e.haswhole = 1 => SameMatrix(e.A, e.wA) /\ e.b = e.wb /\ e.s = e.ws),
         ConsistentOnSums |->
-           /\ Len(e.v) = Len(e.b) /\ ConsistentLin(e.b, e.v, e.q)
-           /\ (e.hasp = 1 => e.A.shape = <<Len(e.v), Len(e.u)>> /\ ConsistentBil(e.A, e.u, e.v, e.p))]
+           /\ (e.hasp # 2 => Len(e.v) = Len(e.b) /\ ConsistentLin(e.b, e.v, e.q))
+           \* hasp = 2: product of two lists; the functionals exist block by block only (with the block's idx)
+           /\ (e.hasp >= 1 => e.A.shape = <<Len(e.v), Len(e.u)>>
+                               /\ ConsistentBil(e.A, e.u, e.v, SumN(Len(e.pparts), LAMBDA a : e.pparts[a])))]
 
 \* default normals w.n of a facet basis against the integer geometry of the facets and the basis of side 0.
 \* fac[k] = [t |-> tangent vectors (integers), out |-> (facet midpoint - centroid of the owner cell) (integers),
@@ -239,6 +265,7 @@ Clauses(e) ==
     [] e.a = "List"   -> ListClauses(e)
     [] e.a = "Normal" -> NormalClauses(e)
     [] e.a = "Suite"  -> SuiteClauses(e)
+    [] e.a = "TFun"   -> TFunClauses(e)
 
 Bump(c, r) == [k \in DOMAIN c \cup DOMAIN r |->
                  (IF k \in DOMAIN c THEN c[k] ELSE 0) + (IF k \in DOMAIN r THEN 1 ELSE 0)]
